@@ -23,7 +23,7 @@ def bits_pickRandom_reads_last_elem : Bool := true
 def bits_setIndex_guard : String := "i >= bA.Bits"
 
 /-- has libs/bits/bit_array.go BitArray.Sub -/
-def bits_sub_loop_bound : Bool := false
+def bits_sub_loop_bound : Bool := true
 
 /-- cond libs/bits/bit_array.go BitArray.ValidateBasic -/
 def bits_validate_elems_guard : String := "len(bA.Elems) != expected"
